@@ -51,6 +51,7 @@ noncomputable instance instPPOpsReal : PPOps ℝ where
   atan2 y x := Complex.arg ⟨x, y⟩
   r32 x := x
   truncI32 x := max (-2147483648) (min 2147483647 (if 0 ≤ x then ⌊x⌋ else ⌈x⌉))
+  ceil x := (⌈x⌉ : ℤ)
   pi := Real.pi
   posInf := 0
   negInf := 0
